@@ -306,4 +306,74 @@ static int kx_nth_string(uint64_t k, const char* alpha, int minlen, int maxlen, 
         out[0] = 0;
         return -1;
 }
+
+/* ---- the command-line program, called in a forked child so that exit(), fclose(stdin) and getopt state
+        cannot leak into the harness.  The child links the CLI's own main() (renamed kalign_cli_main by
+        engine/build.py).  `observe`, if not NULL, is installed as the verification hook in the child. ---- */
+#ifdef KX_WITH_CLI
+#include <sys/wait.h>
+#include <sys/mman.h>
+#include <getopt.h>
+int kalign_cli_main(int argc, char** argv);
+
+struct kx_cli_result {
+        int exited;             /* 1: normal exit */
+        int status;             /* exit status or signal number */
+        char out[4096];         /* first bytes of stdout */
+        char err[4096];         /* first bytes of stderr */
+        size_t outn, errn;
+};
+
+static int kx_cli(char** argv, const char* stdin_path, void (*observe)(int, int, int, int, const void*, const void*),
+                  struct kx_cli_result* res, const char* tmpdir)
+{
+        char po[400], pe[400];
+        pid_t pid;
+        int st, argc = 0;
+        snprintf(po, sizeof po, "%s/cli.out", tmpdir);
+        snprintf(pe, sizeof pe, "%s/cli.err", tmpdir);
+        while(argv[argc]){
+                argc++;
+        }
+        fflush(NULL);
+        pid = fork();
+        if(pid == 0){
+                int fi = open(stdin_path ? stdin_path : "/dev/null", O_RDONLY);
+                int fo = open(po, O_WRONLY | O_CREAT | O_TRUNC, 0600);
+                int fe = open(pe, O_WRONLY | O_CREAT | O_TRUNC, 0600);
+                int rc;
+                dup2(fi, 0);
+                dup2(fo, 1);
+                dup2(fe, 2);
+                kalign_verif_hook = observe;
+                optind = 0;
+                alarm(20);
+                rc = kalign_cli_main(argc, argv);
+                fflush(NULL);
+                _exit(rc);
+        }
+        while(waitpid(pid, &st, 0) < 0){
+        }
+        memset(res, 0, sizeof *res);
+        if(WIFEXITED(st)){
+                res->exited = 1;
+                res->status = WEXITSTATUS(st);
+        }else{
+                res->status = WIFSIGNALED(st) ? WTERMSIG(st) : -1;
+        }
+        {
+                FILE* f = fopen(po, "rb");
+                if(f){
+                        res->outn = fread(res->out, 1, sizeof res->out - 1, f);
+                        fclose(f);
+                }
+                f = fopen(pe, "rb");
+                if(f){
+                        res->errn = fread(res->err, 1, sizeof res->err - 1, f);
+                        fclose(f);
+                }
+        }
+        return 0;
+}
+#endif
 #endif
